@@ -255,6 +255,8 @@ fn cpu_secs(pid: u32) -> Option<f64> {
 fn run_child(build: &str, args: &[String], stdin_data: Option<&str>, timeout: Duration) -> Option<ChildOut> {
     let mut child = Command::new(exe_for(build)?)
         .args(args)
+        // (a backtrace on stderr would push the line that names the cause out of the part that is kept)
+        .env("RUST_BACKTRACE", "0")
         .stdin(if stdin_data.is_some() { Stdio::piped() } else { Stdio::null() })
         .stdout(Stdio::piped())
         .stderr(Stdio::piped())
@@ -278,8 +280,17 @@ fn run_child(build: &str, args: &[String], stdin_data: Option<&str>, timeout: Du
         let mut s = Vec::new();
         let _ = se.read_to_end(&mut s);
         let s = String::from_utf8_lossy(&s).to_string();
-        if s.len() > 4000 {
-            s[s.len() - 4000..].to_string()
+        if s.len() > 8000 {
+            // head and tail: the cause is named first, the context last
+            let mut a = 4000;
+            while !s.is_char_boundary(a) {
+                a -= 1;
+            }
+            let mut b = s.len() - 4000;
+            while !s.is_char_boundary(b) {
+                b += 1;
+            }
+            format!("{}\n[...]\n{}", &s[..a], &s[b..])
         } else {
             s
         }
@@ -414,7 +425,7 @@ fn run_careful(build: &str, prop: &str, thorough: bool, seed: u64, from: u64, to
         to.to_string(),
         "careful".into(),
     ];
-    let mut child = match Command::new(exe_for(build).unwrap_or_else(self_exe)).args(&args).stdin(Stdio::null()).stdout(Stdio::piped()).stderr(Stdio::piped()).spawn() {
+    let mut child = match Command::new(exe_for(build).unwrap_or_else(self_exe)).args(&args).env("RUST_BACKTRACE", "0").stdin(Stdio::null()).stdout(Stdio::piped()).stderr(Stdio::piped()).spawn() {
         Ok(c) => c,
         Err(e) => {
             total.harness_errors.push(format!("cannot spawn careful worker: {e}"));
